@@ -20,7 +20,9 @@ package main
 // obs  = (outcome local' remote')  outcome 0 ok | 1 error; states as in the case with sorted lists
 //
 // Oracle classes: closure, depth-rule, depth-rule-want-order, depth-rule-followed-tag, table-unusable, objects-differ,
-// not-idempotent, rounds, refs-before-objects, success-with-missing-objects (a faulted run that reports success
+// not-idempotent, rounds, refs-before-objects, retries-unbounded / retries-unbounded-stream-reset (watchdog of the
+// reference server: more than 40 requests in an exchange that cannot succeed),
+// success-with-missing-objects (a faulted run that reports success
 // although a moved ref lacks history or tables), fault-broke-refs (any ref that does not resolve with full history).
 
 import (
@@ -72,7 +74,10 @@ type c09Case struct {
 	TB     int
 	Specs  []c10Spec
 	Items  []c10PItem
-	FMode  int // 0 none, 1 connection abort, 2 HTTP/2 stream reset
+	SrcRem int // push only: 0 plain refs; local refs/remotes/* were 1 fetched from the remote they are named
+	// after, 3 fetched from "origin" and renamed since; 2 = the source remote is gone (no such refs at all)
+	FMode int // 0 none, 1 connection abort, 2 HTTP/2 stream reset (both once); 3 every packfile answer of
+	// upload-pack cut inside its last object, 4 every packfile answer lost (HTTP/2 reset), on every attempt
 	FPhase int // 1 GET /refs/, 2 first JSON answer, 3 packfile exchange carrying the FJ-th commit
 	FJ     int
 }
@@ -104,8 +109,11 @@ func (c *c09Case) Tree() *xt.T {
 		}
 		op = xt.N(xt.LI(1), xt.Bool(c.GForce), xt.LI(c.P), items)
 	}
-	if c.FMode != 0 {
+	if c.FMode != 0 || c.SrcRem != 0 {
 		op.Add(xt.N(xt.LI(c.FMode), xt.LI(c.FPhase), xt.LI(c.FJ)))
+	}
+	if c.SrcRem != 0 {
+		op.Add(xt.LI(c.SrcRem))
 	}
 	return xt.N(g, c09SideT(c.L), c09SideT(c.R), op)
 }
@@ -159,6 +167,9 @@ func c09Parse(t *xt.T) *c09Case {
 	if len(op.Kids) > fi && len(op.Kids[fi].Kids) == 3 {
 		f := op.Kids[fi].Kids
 		c.FMode, c.FPhase, c.FJ = int(f[0].N), int(f[1].N), int(f[2].N)
+	}
+	if c.Kind == 1 && len(op.Kids) > 5 {
+		c.SrcRem = int(op.Kids[5].N)
 	}
 	return c
 }
@@ -266,6 +277,88 @@ func genC09(ctx *Ctx) []Case {
 						c.L = full
 						c.R = recv
 						add("fault-push", c)
+					}
+				}
+			}
+		}
+	}
+	// ---- persistent faults: EVERY packfile answer of upload-pack is cut inside its last object (3) or lost (4), on
+	// every attempt: the fetch cannot succeed and must give up with an error (bounded by the server's watchdog)
+	{
+		gf := &c09Graph{Par: [][]int{{}, {0}, {1}, {2}}, Tab: []int{1, 0, 3, 4}, Ts: []int{0, 1, 2, 3}}
+		full := c09FullSide(gf, [][2]interface{}{{"heads/main", 3}})
+		for _, m := range []int{-1, 1} {
+			for _, mode := range []int{3, 4} {
+				for _, p := range []int{0, 1} {
+					for _, tb := range []int{0, 1} {
+						c := &c09Case{G: gf, Kind: 0, P: p, TB: tb, Specs: []c10Spec{headSpec}, FMode: mode}
+						c.R = full
+						if m >= 0 {
+							c.L = c09FullSide(gf, [][2]interface{}{{"heads/main", m}})
+							c.L.Refs = [][2]interface{}{{"remotes/origin/main", m}}
+						}
+						add("fault-persistent", c)
+						ctx.Count(fmt.Sprintf("fault_mode%d", mode))
+					}
+				}
+			}
+		}
+	}
+	// ---- shallow repositories.  A side is shallow when it stores commits whose table it does not store
+	// (what fetch --depth N leaves behind).
+	{
+		// push from a shallow local repository: chain c0..c3, every commit its own table, the local side has the
+		// tables of the last d commits only; the remote has nothing / c0 / c0..c1; the remote-tracking ref the
+		// history was fetched through is still there (1), renamed (3) or gone (2).  The push is refused, or
+		// everything that travels carries its table.
+		gs := &c09Graph{Par: [][]int{{}, {0}, {1}, {2}}, Tab: []int{1, 2, 3, 4}, Ts: []int{0, 1, 2, 3}}
+		for _, d := range []int{1, 2} {
+			for _, rtip := range []int{-1, 0, 1} {
+				for _, src := range []int{1, 2, 3} {
+					for _, p := range []int{0, 1} {
+						c := &c09Case{G: gs, Kind: 1, P: p, SrcRem: src, Items: []c10PItem{{false, "heads/main", "heads/main"}}}
+						refs := [][2]interface{}{{"heads/main", 3}}
+						switch src {
+						case 1:
+							refs = append(refs, [2]interface{}{"remotes/origin/main", 3})
+						case 3:
+							refs = append(refs, [2]interface{}{"remotes/old/main", 3})
+						}
+						c.L = c09Side{Commits: []int{0, 1, 2, 3}, Refs: refs}
+						for x := 4 - d; x < 4; x++ {
+							c.L.Tables = append(c.L.Tables, gs.Tab[x])
+						}
+						if rtip >= 0 {
+							c.R = c09FullSide(gs, [][2]interface{}{{"heads/main", rtip}})
+						}
+						add("shallow-push", c)
+						ctx.Count(fmt.Sprintf("shallow_push_src%d", src))
+					}
+				}
+			}
+		}
+		// fetch into a shallow local repository, the remote's new commits REUSING earlier tables (reverts):
+		// chain c0..c6 with tables 1 2 3 | 1 3 2 4; the local side has c0..c2 with the tables of the last d of them.
+		// Clause judged: every commit of a moved ref within the requested depth has its table afterwards.
+		gr := &c09Graph{Par: [][]int{{}, {0}, {1}, {2}, {3}, {4}, {5}}, Tab: []int{1, 2, 3, 1, 3, 2, 4}, Ts: []int{0, 1, 2, 3, 4, 5, 6}}
+		for _, tip := range []int{3, 4, 5, 6} {
+			for _, d := range []int{1, 2} {
+				for _, depth := range []int{0, 1, 2} {
+					for _, k := range []int{0, 1, 2} {
+						for _, tb := range []int{0, 1, 256} {
+							for _, p := range []int{0, 1} {
+								if !ctx.Thorough() && ctx.Pick(6) != 0 && !(k == 0 && tb == 0 && p == 0) {
+									continue
+								}
+								c := &c09Case{G: gr, Kind: 0, Depth: depth, K: k, TB: tb, P: p, Specs: []c10Spec{headSpec}}
+								c.R = c09FullSide(gr, [][2]interface{}{{"heads/main", tip}})
+								c.L = c09Side{Commits: []int{0, 1, 2}, Refs: [][2]interface{}{{"remotes/origin/main", 2}}}
+								for x := 3 - d; x < 3; x++ {
+									c.L.Tables = append(c.L.Tables, gr.Tab[x])
+								}
+								add("shallow-fetch-revert", c)
+							}
+						}
 					}
 				}
 			}
@@ -491,6 +584,12 @@ type c09State struct {
 }
 
 func c09Populate(g *c09Graph, db objects.Store, rs ref.Store, s c09Side) {
+	c09PopulateSrc(g, db, rs, s, 0)
+}
+
+// c09PopulateSrc: with srcRem 1 or 3 the refs/remotes/NAME/... refs are written the way a fetch writes them
+// (reflog action "fetch", message "[from REMOTE] ..."), REMOTE = NAME (1) or "origin" (3: renamed afterwards).
+func c09PopulateSrc(g *c09Graph, db objects.Store, rs ref.Store, s c09Side, srcRem int) {
 	for _, t := range s.Tables {
 		c09EnsureTable(db, t)
 	}
@@ -500,7 +599,18 @@ func c09Populate(g *c09Graph, db objects.Store, rs ref.Store, s c09Side) {
 		}
 	}
 	for _, e := range s.Refs {
-		if err := ref.SaveRef(rs, e[0].(string), g.Sums[e[1].(int)], "gen", "gen@example.com", "commit", "setup", nil); err != nil {
+		name := e[0].(string)
+		if (srcRem == 1 || srcRem == 3) && strings.HasPrefix(name, "remotes/") {
+			remote := strings.SplitN(name, "/", 3)[1]
+			if srcRem == 3 {
+				remote = "origin"
+			}
+			if err := ref.SaveFetchRef(rs, name, g.Sums[e[1].(int)], "gen", "gen@example.com", remote, "storing head"); err != nil {
+				panic(err)
+			}
+			continue
+		}
+		if err := ref.SaveRef(rs, name, g.Sums[e[1].(int)], "gen", "gen@example.com", "commit", "setup", nil); err != nil {
 			panic(err)
 		}
 	}
@@ -622,7 +732,7 @@ func runC09(ctx *Ctx, t *xt.T) (*xt.T, Verdict) {
 	}
 	var ts *httptest.Server
 	var transport http.RoundTripper // nil = default
-	if c.FMode == 2 {
+	if c.FMode == 2 || c.FMode == 4 {
 		// HTTP/2 over TLS: a response lost by the fault layer reaches the client as RST_STREAM INTERNAL_ERROR
 		ts = httptest.NewUnstartedServer(srv)
 		ts.EnableHTTP2 = true
@@ -632,7 +742,12 @@ func runC09(ctx *Ctx, t *xt.T) (*xt.T, Verdict) {
 		ts = httptest.NewServer(srv)
 	}
 	defer ts.Close()
-	if c.FMode != 0 {
+	srv.MaxRequests = 20000
+	if c.FMode == 3 || c.FMode == 4 {
+		// persistent fault: the exchange cannot succeed; a client that keeps retrying is stopped by the watchdog
+		srv.Persistent = c.FMode - 2
+		srv.MaxRequests = 40
+	} else if c.FMode != 0 {
 		srv.FaultPhase, srv.FaultJ = c.FPhase, c.FJ
 		if c.FPhase == 2 {
 			srv.FaultJ = 1
@@ -669,7 +784,7 @@ func runC09(ctx *Ctx, t *xt.T) (*xt.T, Verdict) {
 		if err != nil {
 			panic(err)
 		}
-		c09Populate(g, db, rd.OpenRefStore(), c.L)
+		c09PopulateSrc(g, db, rd.OpenRefStore(), c.L, c.SrcRem)
 		db.Close()
 		rd.Close()
 		cs := conffs.NewStore(wrglDir, conffs.LocalSource, "")
@@ -812,6 +927,9 @@ func runC09(ctx *Ctx, t *xt.T) (*xt.T, Verdict) {
 	}
 	r1 := runOnce()
 	srv.FaultPhase = 0 // one exchange, one fault: the repeated run below is undisturbed
+	srv.Persistent = 0
+	srv.requests = 0
+	srv.MaxRequests = 20000
 	withLocal(func(db objects.Store, rs ref.Store) { lAfter = c09Snapshot(g, db, rs) })
 	rAfter := c09Snapshot(g, rdb, rrs)
 	obs := xt.N(xt.LI(r1.outcome), lAfter.Tree(), rAfter.Tree())
@@ -1052,6 +1170,15 @@ func runC09(ctx *Ctx, t *xt.T) (*xt.T, Verdict) {
 		if r1.stats.UploadNegRounds > nfull/k+2 {
 			fail("rounds", "%d negotiation rounds for %d local commits with k=%d", r1.stats.UploadNegRounds, nfull, k)
 		}
+	}
+	if r1.stats.Watchdog {
+		// "never loops forever": the exchange could not succeed and the client kept sending requests
+		cls := "retries-unbounded"
+		if c.FMode == 4 {
+			cls = "retries-unbounded-stream-reset" // fetch.Fetch's retry on an HTTP/2 stream reset has no attempt limit
+		}
+		v := Fail(cls, "the client sent more than 40 requests against a remote whose every packfile answer is broken (%d faults): %s", r1.stats.Faults, r1.out)
+		return obs, v
 	}
 	if verdict != nil {
 		if c.FMode != 0 && r1.outcome == 0 {
